@@ -223,7 +223,6 @@ func c18Table(out string) string {
 	return ""
 }
 
-
 // ---- BULK: the same oracle on large enumerated document families, command structs run directly (clidrv.Exec)
 
 const c18Chunk = 1500
@@ -267,7 +266,9 @@ type c18BulkCmd struct {
 var c18BulkCmds = func() []c18BulkCmd {
 	ns := func(b bool) cliutil.NoStyleArgs { return cliutil.NoStyleArgs{NoStyle: b} }
 	cmds := []c18BulkCmd{
-		{"print", false, func(in cliutil.InputFilesArgs, b bool) clidrv.Runner { return &cli.Print{NoStyleArgs: ns(b), InputFilesArgs: in} }},
+		{"print", false, func(in cliutil.InputFilesArgs, b bool) clidrv.Runner {
+			return &cli.Print{NoStyleArgs: ns(b), InputFilesArgs: in}
+		}},
 		{"print --with-totals", false, func(in cliutil.InputFilesArgs, b bool) clidrv.Runner {
 			return &cli.Print{WithTotals: true, NoStyleArgs: ns(b), InputFilesArgs: in}
 		}},
@@ -280,7 +281,9 @@ var c18BulkCmds = func() []c18BulkCmd {
 		{"tags -v -c", true, func(in cliutil.InputFilesArgs, b bool) clidrv.Runner {
 			return &cli.Tags{Values: true, Count: true, NoStyleArgs: ns(b), InputFilesArgs: in}
 		}},
-		{"tags", true, func(in cliutil.InputFilesArgs, b bool) clidrv.Runner { return &cli.Tags{NoStyleArgs: ns(b), InputFilesArgs: in} }},
+		{"tags", true, func(in cliutil.InputFilesArgs, b bool) clidrv.Runner {
+			return &cli.Tags{NoStyleArgs: ns(b), InputFilesArgs: in}
+		}},
 		{"today --diff --now", true, func(in cliutil.InputFilesArgs, b bool) clidrv.Runner {
 			return &cli.Today{DiffArgs: cliutil.DiffArgs{Diff: true}, NowArgs: cliutil.NowArgs{Now: true}, NoStyleArgs: ns(b), InputFilesArgs: in}
 		}},
